@@ -340,6 +340,11 @@ fn main() {
         let mut local = Local { walks: WalkCache::default() };
         run_mix(&mut ctx, seed, |c, e| exec_dispatch(c, e, &mut local));
     }
+    // and concurrently: the same sample on several threads at once (shared state inside the library)
+    run_mix_concurrent(&mut ctx, seed, cli.threads, |c, e| {
+        let mut local = Local { walks: WalkCache::default() };
+        exec_dispatch(c, e, &mut local)
+    });
     let mut required = Vec::new();
     for g in Group::ALL {
         for n in 0..=8usize {
